@@ -730,6 +730,9 @@ class Interp:
                     mlo, mhi = min(la >> lb2, la >> hb2), max(ha >> lb2, ha >> hb2)
                 if lb == hb and lb >= 0:
                     prov = ("div", (a.vid,), 1 << lb) if la >= 0 else None
+                    pk_ = st.prov.get(a.vid)
+                    if pk_ and pk_[0] == "kbits" and la >= 0:
+                        prov = ("kbits", (), (pk_[2][0] >> lb, pk_[2][1] >> lb))     # known bits move with the value
         elif op == "Cmp":
             return self.ctx.top_value(st, dest_ty)
         else:
